@@ -1,0 +1,35 @@
+//go:build verif
+// +build verif
+
+package cgen
+
+import (
+	"strings"
+
+	"github.com/google/wuffs/lib/dumbindent"
+
+	a "github.com/google/wuffs/lang/ast"
+	t "github.com/google/wuffs/lang/token"
+)
+
+// Hook for /verif property C11 (compiled only with -tags verif).
+
+// VerifGenerate is the non-base branch of the generator closure in Do: what
+// `wuffs-c gen -package_name pkgName` runs on files that lang/check accepted,
+// returning the C text instead of writing it to stdout.
+func VerifGenerate(pkgName string, tm *t.Map, files []*a.File, genlinenum bool) ([]byte, error) {
+	g := &gen{
+		PKGPREFIX:  "WUFFS_" + strings.ToUpper(pkgName) + "__",
+		PKGNAME:    strings.ToUpper(pkgName),
+		pkgPrefix:  "wuffs_" + pkgName + "__",
+		pkgName:    pkgName,
+		tm:         tm,
+		files:      files,
+		genlinenum: genlinenum,
+	}
+	unformatted, err := g.generate()
+	if err != nil {
+		return nil, err
+	}
+	return dumbindent.FormatBytes(nil, unformatted, nil), nil
+}
